@@ -6,7 +6,7 @@ TRUSTED = ["Lean 4.33.0 kernel", "axioms: propext, Classical.choice, Quot.sound 
            "model Model/Engine.lean tied by compiled generated programs (row multiplicities are part of every dump), serial and ascent_par",
            "partial for the parallel half: one shard-locked insert_if_not_present is one atomic step (assumption of the protocol theorem); "
            "real interleavings are exercised by multi-threaded runs with many workers deriving the same tuples, not proved"]
-THEOREMS = ["rows_set", "inputs_kept", "par_exactly_one_push"]
+THEOREMS = ["rows_set", "inputs_kept", "par_exactly_one_push", "at_most_one_row", "no_stuck", "step_decreases", "final_row_dominates", "final_row_least"]
 
 
 def build(rng, tier):
@@ -59,7 +59,7 @@ def oracle(c, p, out):
 
 
 def check(tier, replay=None):
-    return engcheck.run_property("C05", tier, modules=["AscentVerif.Props.C05"], theorems=THEOREMS, trusted=TRUSTED, group="c05",
+    return engcheck.run_property("C05", tier, modules=["AscentVerif.Props.C05", "AscentVerif.Props.C05Par"], theorems=THEOREMS, trusted=TRUSTED, group="c05",
                                  build=build, oracle=oracle, what="row multiplicities of compiled programs",
                                  rule="generated programs (serial ascent! and ascent_par! twins) x inputs incl. duplicate rows and rows that are themselves "
                                       "derivable; after run() every input tuple must occur exactly as often as the caller inserted it and every other tuple once; "
